@@ -264,7 +264,7 @@ class TokenManager(interfaces.RequestInterface, interfaces.TokenManager):
 
         try:
             send_canceller = self.token_interface.send_message(
-                msg, lambda: request.add_exception(error.MessageError)
+                msg, lambda: request.add_exception(error.MessageError())
             )
         except Exception as e:
             request.add_exception(e)
